@@ -3,6 +3,7 @@ CONSTANTS
   N = 3
   Level = "page"
   SelfRef = FALSE
+  OwnerRef = TRUE
   AllowFail = TRUE
 INVARIANT InjectSound
 INVARIANT Quiescent
